@@ -13,6 +13,7 @@ import pyttb as ttb
 from .. import gen, ref
 from ..core import cell
 from . import _c05_helpers as H
+from . import _c05_states as CS
 
 import logging as _logging
 
@@ -29,26 +30,99 @@ def pred(name):
     return deco
 
 
+NONDETERMINISTIC = ("nvecs", "alg/cp_als", "alg/tucker_als")  # ARPACK start vectors differ from call to call
+HEAVY = ("alg/",)
+
+
+class _Mute:
+    """stand-in for ctx while a cell function is run again only to build a second set of operands"""
+
+    notes: Dict[str, Any] = {}
+
+    def label(self, *a):
+        pass
+
+    def skip(self, why):
+        raise _NotApplicable()
+
+
+class _NotApplicable(Exception):
+    pass
+
+
+def _seeded(case, call):
+    if isinstance(case, dict) and "np_seed" in case:
+        def seeded():
+            np.random.seed(case["np_seed"])
+            return call()
+        return seeded
+    return call
+
+
+def _edit_history(ctx, name, fn, case, result_of):
+    """prime the operation, edit the value arrays of its operands in place, call again; the same edit applied to
+    freshly built operands that were never used must give the same result (nothing remembered across the edit)"""
+    try:
+        if "np_seed" in case:
+            np.random.seed(case["np_seed"])
+        a = fn(_Mute(), case)
+        if "np_seed" in case:
+            np.random.seed(case["np_seed"])
+        b = fn(_Mute(), case)
+    except _NotApplicable:
+        return
+    if a is None or b is None:
+        return
+    (ops_a, call_a), (ops_b, call_b) = (a[0], _seeded(case, a[1])), (b[0], _seeded(case, b[1]))
+    try:
+        call_a()
+    except Exception:  # noqa: BLE001
+        ctx.label("edit-history:prime-raised")
+        return
+    n_a, n_b = CS.edit_in_place(ops_a), CS.edit_in_place(ops_b)
+    if n_a == 0 or n_a != n_b:
+        ctx.label("edit-history:nothing-to-edit")
+        return
+    res = []
+    for call in (call_a, call_b):
+        try:
+            r = call()
+            res.append(("returned", H.snap_values(result_of(r) if result_of is not None else r)))
+        except Exception as e:  # noqa: BLE001
+            res.append(("raised", type(e).__name__))
+    ctx.label("edit-history:" + res[0][0] + "/" + res[1][0])
+    if res[0][0] != res[1][0]:
+        ctx.check(False, "edit-history-outcome-differs",
+                  f"{name}: after prime+edit the call {res[0][0]} ({res[0][1] if res[0][0] == 'raised' else ''}), on fresh "
+                  f"operands with the same edit it {res[1][0]} ({res[1][1] if res[1][0] == 'raised' else ''})")
+    elif res[0][0] == "returned":
+        d = H.snap_diff(res[1][1], res[0][1])
+        ctx.check(d is None, "stale-after-in-place-edit", f"{name}: fresh operands vs primed-then-edited operands: {d}")
+
+
 def op(name: str, strategy, quick: int = 40, thorough: int = 600, inplace: Optional[str] = None, shards=(1, 2),
        result_of=None):
     """Register cell ``C05/<name>``.  The decorated function maps (ctx, case) to (operands, call)."""
+    deterministic = not any(name.endswith(x) or name == x for x in NONDETERMINISTIC)
+    heavy = any(name.startswith(x) for x in HEAVY)
 
     def deco(fn):
         def body(ctx, case, fn=fn):
             if isinstance(case, dict) and "np_seed" in case:
                 np.random.seed(case["np_seed"])
+            del CS.ST.BUILD_NOTES[:]
             out = fn(ctx, case)
             if out is None:
                 ctx.skip("not-applicable")
             operands, call = out[0], out[1]
             ip = out[2] if len(out) > 2 and out[2] is not None else inplace
             post = out[3] if len(out) > 3 else None
-            if isinstance(case, dict) and "np_seed" in case:
-                inner = call
-
-                def call():  # noqa: F811
-                    np.random.seed(case["np_seed"])
-                    return inner()
+            if isinstance(case, dict):
+                ctx.label(*CS.state_labels(case), *CS.object_labels(operands))
+                if case.get("_aux"):
+                    ctx.label("aux-" + case["_aux"])
+            call = _seeded(case, call)
+            seq = (case.get("_seq") or {}) if isinstance(case, dict) else {}
 
             box = {}
             inner2 = call
@@ -57,13 +131,17 @@ def op(name: str, strategy, quick: int = 40, thorough: int = 600, inplace: Optio
                 box["ret"] = inner2()
                 return box["ret"]
 
-            H.check_op(ctx, name, operands, call2, inplace=ip, result_of=result_of)
+            H.check_op(ctx, name, operands, call2, inplace=ip, result_of=result_of, again=bool(seq.get("again")),
+                       deterministic=deterministic)
             if post is not None and "ret" in box:
                 post(ctx, box["ret"])
+            if seq.get("edit") and ip is None and deterministic and "ret" in box and not any(
+                    d.startswith("operand-mutated:") for _, d, _ in ctx.violations):
+                _edit_history(ctx, name, fn, case, result_of)
 
         body.__name__ = "c05_" + name.replace("/", "_")
         body.__doc__ = fn.__doc__
-        cell("C05/" + name, strategy=strategy, quick=quick, thorough=thorough, shards=shards)(body)
+        cell("C05/" + name, strategy=CS.annotated(strategy, heavy=heavy), quick=quick, thorough=thorough, shards=shards)(body)
         return fn
 
     return deco
@@ -130,8 +208,8 @@ def d_mats(draw, rows, cols, vkind="int"):
             for r, c in zip(rows, cols)]
 
 
-def mat(m, r, c):
-    return np.array(m, dtype=float).reshape(r, c)
+def mat(m, r, c, case=None):
+    return CS.aux(case, np.array(m, dtype=float).reshape(r, c))
 
 
 def d_dims(draw, n, min_size=1, max_size=None, allow_exclude=True, allow_none=False):
@@ -184,13 +262,13 @@ def multiplicands(d, n, per_mode: List[Any], full: bool):
 
 def other_of(kind, c):
     if kind == "tensor":
-        return gen.build_tensor(c)
+        return CS.build_tensor(c)
     if kind == "sptensor":
-        return gen.build_sptensor(c)
+        return CS.build_sptensor(c)
     if kind == "ktensor":
-        return gen.build_ktensor(c)
+        return CS.build_ktensor(c)
     if kind == "ttensor":
-        return gen.build_ttensor(c)
+        return CS.build_ttensor(c)
     if kind == "sumtensor":
         return build_sumtensor(c)
     raise ValueError(kind)
